@@ -311,6 +311,7 @@ pub struct C06Stats {
 
 pub fn c06_swap_oracle(pre: &Ledger, st: &Stepped, w: &StdWorld, a_to_b: bool, exact_in: bool, amount: u64, limit: u128, stats: &mut C06Stats) -> Result<(), String> {
     let post = &st.ledger;
+    let adaptive = pre.get(&w.pool.oracle).map(|a| a.owner == world::WP).unwrap_or(false);
     let p0 = w.pool.state(pre);
     let p1 = w.pool.state(post);
     let mut sum_in = BigUint::zero();
@@ -336,6 +337,34 @@ pub fn c06_swap_oracle(pre: &Ledger, st: &Stepped, w: &StdWorld, a_to_b: bool, e
                 }
                 if r > 100_000 {
                     return Err(format!("step charged fee rate {r} above the 10% hard limit"));
+                }
+                // the rate and the liquidity are not taken on trust from the step record: the rate of a static-fee pool is the one
+                // stored in the pool (an adaptive pool never charges less; its schedule is C14's), and "the liquidity in range at
+                // that step" is the sum over the positions whose price range contains the step's price interval
+                if !adaptive && r != p0.fee_rate as u128 {
+                    return Err(format!("step charged fee rate {r} but the pool's fee rate is {}", p0.fee_rate));
+                }
+                if adaptive && r < p0.fee_rate as u128 {
+                    return Err(format!("step charged fee rate {r}, below the pool's static rate {}", p0.fee_rate));
+                }
+                if s.next_price != s.sqrt_price_before {
+                    let (lo, hi) = (s.next_price.min(s.sqrt_price_before), s.next_price.max(s.sqrt_price_before));
+                    let mut in_range: u128 = 0;
+                    for p in &w.positions {
+                        if !p.exists(pre) {
+                            continue;
+                        }
+                        let ps = p.state(pre);
+                        if ps.liquidity > 0 && ps.tick_lower_index < ps.tick_upper_index && sqrt_price_from_tick_index(ps.tick_lower_index) <= lo && hi <= sqrt_price_from_tick_index(ps.tick_upper_index) {
+                            in_range += ps.liquidity;
+                        }
+                    }
+                    if in_range != s.liquidity {
+                        return Err(format!(
+                            "step over the price interval [{lo}, {hi}] traded against liquidity {} but the positions whose range contains that interval sum to {in_range}",
+                            s.liquidity
+                        ));
+                    }
                 }
                 let is_max = s.next_price == s.bounded_sqrt_price_target;
                 let expect_fee = if exact_in && !is_max {
